@@ -195,14 +195,20 @@ Definition to_string_m (ws : list N) (zero one : N) : list N :=
 (* bitset(basic_string_view str, pos, n, zero, one)   [n : size_t, npos = 2^64-1]
      : bitset(0ULL)
      TETL_PRECONDITION(pos <= str.size());
-     len = min(n, str.size() - pos);  m = min(len, size());
+     len = min(n, str.size() - pos);
+     for i < len: TETL_PRECONDITION(eq(str[pos + i], zero) or eq(str[pos + i], one));
+     m = min(len, size());
      for i < m: ch = str[pos + m - 1 - i]; if eq(ch, one) set(i, true); if eq(ch, zero) set(i, false);
-   (i < m <= size() and pos + m - 1 - i < str.size(): the inner preconditions hold) *)
+   (i < m <= size(), pos + i < str.size() and pos + m - 1 - i < str.size(): the inner
+    preconditions of set() and string_view::operator[] hold) *)
 Definition of_string (str : list N) (pos : nat) (n : N) (zero one : N) : res (list N) :=
   let size := length str in
   if size <? pos then Contract
   else
     let len := N.to_nat (N.min n (N.of_nat (size - pos))) in
+    if negb (forallb (fun i => let ch := nth (pos + i) str 0%N in N.eqb ch zero || N.eqb ch one) (seq 0 len))
+    then Contract
+    else
     let m := Nat.min len bits in
     Ok (fold_left (fun ws i =>
                      let ch := nth (pos + m - 1 - i) str 0%N in
